@@ -181,6 +181,21 @@ claim('C05',
                     'slack 200 objects / 128 KiB per batch. Left open: volatile functions, threads.',
       '§7 C05')
 
+claim('C06',
+      'TLA+ spec XlEvalMachine (small-step walk of the dependency graph: frame stack, per-context memo, cycle check selected by a '
+      'constant); TLC checks termination (liveness under fairness), stack/step bounds, cycle-iff-cyclic, no-false-cycle and refinement '
+      'of the big-step value on every digraph, and rejects the per-context and visited-set variants; every final state is replayed '
+      'in a time/memory-limited evaluation; chains and seeded graphs are validated by TLC (Trace_C06)',
+      'Every digraph on 3 cells (quick; 4 cells sampled in thorough) with up to two possibly repeated references per cell, at most one '
+      'failing cell, every entry point: 26 364 behaviours, each deterministic; the outcome class (value / cycle report / other '
+      'failure) and the value of every behaviour are compared with the real evaluator on formulas that mention cells singly or through '
+      'ranges. The graph-theoretic statement (reachable cycle <=> cycle report, unless a failing cell is reachable too) is checked by '
+      'TLC both on the machine and, independently of it, on recorded outcomes of seeded graphs on 4-10 cells. Chains of depth up to '
+      '200 (thorough 512) with valid, unknown-function and Python-error leaves bound message size (400k+400) and CPU time (5k^2+2000 ms).',
+      COMMON_NOTE + ' Time is measured (process CPU time), not modelled. Left open: wording/class of exceptions beyond "mentions a cycle", '
+                    'whether a very deep acyclic chain yields its value or a bounded failure.',
+      '§7 C06')
+
 ALL = ['C%02d' % i for i in range(1, 21)]
 
 
